@@ -1,5 +1,6 @@
 import RxnModel.Proofs.Sst
 import RxnModel.Proofs.SstLsm
+import RxnModel.Proofs.SstDoc
 import RxnModel.Proofs.Wal
 /-!
 # C17 — on-disk tables and write-ahead logs round-trip exactly
@@ -20,6 +21,9 @@ open Rxn Rxn.Sst Rxn.Wal
 
 /-- the fields package is little-endian throughout (the model's `leBytes`/`leVal` are tied to it) -/
 theorem fields_little_endian : Facts.fieldsLittleEndian = 1 := by decide
+
+/-- `TableDocument` has the fields, order and types (`[]byte` keys, no tags) that `jsonDoc` writes -/
+theorem document_shape : Facts.sstDocShape = 1 := by decide
 
 /-- entry codec: decode ∘ encode = id, with any bytes following -/
 theorem entry_codec (e : Entry) (h : e.WF) (rest : Bytes) : decEntry (encEntry e ++ rest) = some (e, rest) :=
@@ -46,6 +50,18 @@ theorem table_reopen (es : List Entry) (hsz : (encEntries es).length < offMod) :
     (docOf es).startKey = (es.head?.map (·.key)).getD [] ∧ (docOf es).endKey = (es.getLast?.map (·.key)).getD [] ∧
     (docOf es).size = (encTable es).length ∧ (docOf es).entriesSize = (encEntries es).length :=
   ⟨loadFooter_encTable es hsz, rfl, rfl, rfl, rfl⟩
+
+/-- the descriptor as the checkpoint document stores it (D30 site): `encoding/json` text of `TableDocument` — keys in
+base64, sizes and sequence numbers in decimal, the URI verbatim — decodes back to the same document and URI -/
+theorem table_document_json (d : Doc) (uri : List Char) (hu : PlainUri uri) :
+    parseDoc (jsonDoc d uri) = some (d, uri) :=
+  parseDoc_jsonDoc d uri hu
+
+/-- re-opening a written table from the JSON text of its document yields the writer's metadata -/
+theorem table_reopen_via_json (es : List Entry) (uri : List Char) (hu : PlainUri uri)
+    (hsz : (encEntries es).length < offMod) :
+    (parseDoc (jsonDoc (docOf es) uri)).bind (fun p => openDoc p.1 (encTable es)) = some (metaOf es) := by
+  rw [parseDoc_jsonDoc _ _ hu]; exact loadFooter_encTable es hsz
 
 theorem table_reopen_get (es : List Entry) (hwf : ∀ e ∈ es, e.WF) (hs : SortedKeys es)
     (hsz : (encEntries es).length < offMod) (key : Bytes) :
@@ -104,9 +120,10 @@ theorem writeRun_sizes (target : Nat) (ht : 0 < target) (es : List Entry) (M : N
 /-! ## hand-off to C07 / C18: a level built from the tables of `WriteRun` -/
 
 /-- every table of `WriteRun` answers `Get` and `ScanPrefix` like its slice of the run, and the run's lookup is the
-first hit over the slices (each key lives in exactly one, by `writeRun_ranges`) -/
+first hit over the slices (each key lives in exactly one, by `writeRun_ranges`). The `uint32` offset limit is a
+hypothesis PER TABLE (`writeRun_table_bytes` derives it from the target size); the run as a whole may be of any size. -/
 theorem writeRun_tables_answer (target : Nat) (es : List Entry) (hwf : ∀ e ∈ es, e.WF) (hs : SortedKeys es)
-    (hsz : (encEntries es).length < offMod) :
+    (hsz : ∀ c ∈ writeRun target es, (encEntries c).length < offMod) :
     (∀ c ∈ writeRun target es, ∀ key,
       get (metaOf c) (docOf c).entriesSize (encTable c) key = GetRes.ofOption (lookup c key)) ∧
     (∀ c ∈ writeRun target es, ∀ pfx,
@@ -115,18 +132,29 @@ theorem writeRun_tables_answer (target : Nat) (es : List Entry) (hwf : ∀ e ∈
   have hmem : ∀ c ∈ writeRun target es, ∀ e ∈ c, e ∈ es := by
     intro c hc e he
     rw [← writeRun_flatten target es]; exact List.mem_flatten.mpr ⟨c, hc, he⟩
-  have hlen : ∀ c ∈ writeRun target es, (encEntries c).length ≤ (encEntries es).length := by
-    intro c hc
-    obtain ⟨l1, l2, hsplit⟩ := List.append_of_mem hc
-    have := congrArg (fun R => (encEntries R.flatten).length) hsplit
-    simp only [writeRun_flatten, List.flatten_append, List.flatten_cons, encEntries_append, List.length_append] at this
-    omega
   refine ⟨?_, ?_, writeRun_lookup target es⟩
   · intro c hc key
     exact get_encTable c (fun e he => hwf e (hmem c hc e he)) ((writeRun_pairwise target es hs).2 c hc)
-      (Nat.lt_of_le_of_lt (hlen c hc) hsz) key
+      (hsz c hc) key
   · intro c hc pfx
     exact scanPrefix_encTable c (fun e he => hwf e (hmem c hc e he)) pfx
+
+/-- the per-table limit holds for every run, however long, once `floor(1.5·target)` plus the largest entry
+(`EntryOverheadSize + |key| + |value| ≤ M`) fits 32 bits -/
+theorem writeRun_table_bytes (target : Nat) (ht : 0 < target) (es : List Entry) (M : Nat)
+    (hM : ∀ e ∈ es, Facts.sstEntryOverhead + e.key.length + e.val.length ≤ M)
+    (hfit : maxBuffer target + M ≤ offMod) :
+    ∀ c ∈ writeRun target es, (encEntries c).length < offMod :=
+  Sst.writeRun_table_bytes target ht es M hM hfit
+
+/-- `Table.Get` is correct with ANY bloom filter that answers "yes" (a false positive on an absent key included:
+before the first key (D19), between keys, between index blocks, after the last key): the bloom gate only ever
+short-cuts to "not found", everything else is decided by the index search and the bounded scan -/
+theorem table_get_any_bloom (b : Bloom) (es : List Entry) (hwf : ∀ e ∈ es, e.WF) (hs : SortedKeys es)
+    (hsz : (encEntries es).length < offMod) (key : Bytes) :
+    get ⟨b, (metaOf es).offsets⟩ (docOf es).entriesSize (encTable es) key
+      = if b.mightHave key then GetRes.ofOption (lookup es key) else GetRes.notFound :=
+  get_any_bloom b es hwf hs hsz key
 
 /-- seen as tables of the LSM model (`Lsm.Tbl`: a table is its run), the tables of `WriteRun` form a level that
 satisfies what C07/C18 assume of a deeper level: every run is sorted (`Lsm.Run.Sorted`), ranges are pairwise
@@ -183,6 +211,35 @@ theorem wal_replay (ops : List Op) (id m f after : Nat)
       = .ok (((appended ops).filter (fun e => decide (after < e.seq))).map Rec.toRead) :=
   replay_after ops id m f after hmono hcons hwf hT hlo hhi
 
+/-- a sealed writer is immutable: the writer rotated away after `ops₁` is what those operations built, at the same
+position and with the same content after ANY later history `ops₂` of its successors — so the bytes `Save` writes for
+it, whenever the asynchronous save runs, depend only on the operations before its `Rotate`. (The functional model
+has this by construction; the lockstep ops `wrotl … wsavel` hold the real writer — whose successors share its
+segment buffers — to it.) -/
+theorem wal_sealed_writer_immutable (id m : Nat) (ops₁ ops₂ : List Op) :
+    let l := (Log.new id m).run (ops₁ ++ Op.rotate :: ops₂)
+    let k := ((Log.new id m).run ops₁).sealed.length
+    l.sealed[k]? = some ((Writer.new id m).run ops₁) ∧
+    (l.sealed[k]?).map Writer.save = some (encRecs ((Writer.new id m).run ops₁).entries) := by
+  intro l k
+  have h := sealed_writer_immutable id m ops₁ ops₂
+  exact ⟨h, by show (l.sealed[k]?).map Writer.save = _; rw [h]; rfl⟩
+
+/-- … and a save that runs after any amount of successor activity still replays exactly the operations appended
+before the `Rotate` and after the marker -/
+theorem wal_late_save_replay (ops₁ ops₂ : List Op) (id m f after : Nat)
+    (hmono : MonoSeqs 0 ops₁) (hcons : Consecutive f (appended ops₁)) (hwf : ∀ e ∈ appended ops₁, e.WF)
+    (hT : maxTrunc ops₁ ≤ after) (hlo : f ≤ after + 1) (hhi : after + 1 ≤ f + (appended ops₁).length) :
+    let l := (Log.new id m).run (ops₁ ++ Op.rotate :: ops₂)
+    let k := ((Log.new id m).run ops₁).sealed.length
+    (l.sealed[k]?).map (fun w => readAll w.save after)
+      = some (.ok (((appended ops₁).filter (fun e => decide (after < e.seq))).map Rec.toRead)) := by
+  intro l k
+  have h := sealed_writer_immutable id m ops₁ ops₂
+  show (l.sealed[k]?).map (fun w => readAll w.save after) = _
+  rw [h]
+  exact congrArg some (replay_after ops₁ id m f after hmono hcons hwf hT hlo hhi)
+
 /-! ## regression witness of D27 and non-vacuity -/
 
 /-- with the unrepaired `Rotate` (carried segments lose `latestSeqNum`) a truncation after a rotation drops a
@@ -204,9 +261,12 @@ example : (∀ e ∈ ([⟨[], 1, false, [7]⟩, ⟨[1], 2, true, []⟩, ⟨[1, 0
 example : lookup [⟨[], 1, false, [7]⟩, ⟨[1], 2, true, []⟩] [1] = some ⟨[1], 2, true, []⟩ ∧
     lookup [⟨[], 1, false, [7]⟩, ⟨[1], 2, true, []⟩] [0] = none := by decide
 
-/-- `WriteRun` really splits: target 20 puts each 18-byte entry in its own table -/
+/-- `WriteRun` really splits: with target 20 two 18-byte entries reach the target, the third is the look-ahead rest -/
 example : writeRun 20 [⟨[1], 1, false, []⟩, ⟨[2], 2, false, []⟩, ⟨[3], 3, false, []⟩]
     = [[⟨[1], 1, false, []⟩, ⟨[2], 2, false, []⟩], [⟨[3], 3, false, []⟩]] := by decide
+
+/-- table file names are plain URIs -/
+example : PlainUri "memory:///000000.sst".toList := by unfold PlainUri; decide
 
 /-- the hypothesis of `writeRun_level_invariants` is met by numbering the tables in order -/
 example (target : Nat) (es : List Entry) :
